@@ -15,6 +15,8 @@ OUTSIDE = ["more than 5 pages / 3 prefixes; token paths of more than 12 base-64 
 TPL = [["batch", 0, [1, 2, 3]], ["page", 2, True], ["page", 4, False], ["we", [[0, 3]]]]
 # two prefixes with two pages each, crawled marks symbolic (crawled-only pagination across a prefix boundary)
 MARKS_POOL = [{"hosts": 2}, {"extend": 0, "paths": 1}, {"extend": 0, "paths": 1}, {"hosts": 2}, {"extend": 3, "paths": 1}, {"extend": 3, "paths": 1}]
+# pages whose stems span two and three blocks (p: + 72 + | = 75 bytes, p: + 146 + | = 149), one of them below a long stem
+LONG_POOL = [{"hosts": 2}, {"extend": 0, "pathL": [72]}, {"extend": 1, "pathL": [1]}, {"extend": 0, "pathL": [146]}]
 # pages three stems below the prefix on two branches (token paths of four and more moves)
 DEEP_POOL = [{"hosts": 2}, {"extend": 0, "paths": 2}, {"extend": 1, "paths": 1}, {"extend": 1, "paths": 1}, {"extend": 0, "paths": 3}]
 
@@ -32,6 +34,8 @@ def levels(tier):
              "defaults": ["never"], "pool": MARKS_POOL, "ks": [1, 2], "insert": False},
             {"name": "deep", "mode": "pages", "n": 0, "prelude": [["we", [[0, 3]]], ["page", 2, False], ["page", 3, True], ["page", 4, False]],
              "alphabet": ["page"], "defaults": ["never"], "pool": DEEP_POOL, "ks": [1, 2, 3], "insert": False},
+            {"name": "long", "mode": "pages", "n": 0, "prelude": [["we", [[0, 3]]], ["page", 1, False], ["page", 2, True], ["page", 3, False]],
+             "alphabet": ["page"], "defaults": ["never"], "pool": LONG_POOL, "ks": [1, 2], "insert": False},
         ]
     return [
         {"name": "codec", "mode": "codec", "digits": [1, 2, 3, 4, 6, 8, 12], "prefix_indices": [0, 1, 9, 10, 123]},
